@@ -192,8 +192,12 @@ impl Scenario for Sc {
         (Ctx { store, base, leftover_id }, futs)
     }
 
-    fn state_hash(&self, _ctx: &Ctx) -> u64 {
-        0
+    fn state_hash(&self, ctx: &Ctx) -> u64 {
+        store_hash(&ctx.store)
+    }
+
+    fn response_hash(&self, ctx: &Ctx, _task: usize, label: &str) -> u64 {
+        response_hash(&ctx.store, label)
     }
 
     fn check(&self, ctx: Ctx, results: Vec<Option<Vec<Ev>>>, _stopped: &[bool], _trace: &[(Choice, String)]) -> Result<Outcome, String> {
@@ -319,21 +323,24 @@ fn scenarios(tier: Tier) -> Vec<(Sc, usize)> {
                         continue;
                     }
                     let big = progs.contains(&AddTwo) || (progs.contains(&AddSnap) && base_len > 0) || (progs.contains(&Walk) && base_len > 0);
-                    v.push((Sc::new(progs.clone(), base_len, page_size, leftover), if q && big { 3 } else { usize::MAX }));
+                    let _ = big;
+                    // with state-key pruning every pair is explored over all interleavings
+                    v.push((Sc::new(progs.clone(), base_len, page_size, leftover), usize::MAX));
                 }
             }
         }
     }
     // triples and quadruples: preemption-bounded
-    let b3 = if q { 2 } else { 3 };
+    // triples: preemption bound 3 in the quick tier, all interleavings in the thorough tier
+    let b3 = if q { 3 } else { usize::MAX };
     for progs in [vec![Add, Add, Walk], vec![Add, Add, Add], vec![Add, AddSnap, Walk]] {
         for leftover in [Leftover::None, Leftover::ChildOfHead] {
             v.push((Sc::new(progs.clone(), 1, 1, leftover), b3));
         }
     }
     if !q {
-        v.push((Sc::new(vec![Add, Add, Add, Walk], 1, 1, Leftover::None), 3));
-        v.push((Sc::new(vec![AddTwo, AddTwo, Walk], 1, 2, Leftover::SiblingOfHead), 3));
+        v.push((Sc::new(vec![Add, Add, Add, Walk], 1, 1, Leftover::None), 4));
+        v.push((Sc::new(vec![AddTwo, AddTwo, Walk], 1, 2, Leftover::SiblingOfHead), usize::MAX));
     }
     v
 }
@@ -352,7 +359,8 @@ pub fn run(opts: &Opts) -> i32 {
     let results: Vec<_> = scs
         .into_par_iter()
         .map(|(sc, bound)| {
-            let cfg = ExploreCfg { bound, max_schedules: if quick { 400_000 } else { 20_000_000 }, deadline: Some(deadline) };
+            let bound = match std::env::var("TCMC_BOUND").ok().as_deref() { Some("max") => usize::MAX, Some(n) => n.parse().unwrap_or(bound), None => bound };
+            let cfg = ExploreCfg { bound, max_schedules: if quick { 400_000 } else { 20_000_000 }, deadline: Some(deadline), seen: Some(Default::default()) };
             let (st, fails) = explore_par(&sc, &cfg);
             (sc, bound, st, fails)
         })
